@@ -102,6 +102,7 @@ def load_package():
             tree = ast.parse(src, filename=p)
         except (OSError, SyntaxError) as e:
             raise PyFrontendError('%s does not parse: %s' % (p, e))
+        canonical_compares(tree)
         pkg.modules[rel] = Module(rel, p, src, tree)
     # stub file for the extension module
     pyi = os.path.join(root, '_C.pyi')
@@ -222,6 +223,24 @@ def src(node):
 _PAT_CACHE = {}
 _MV = '__mv_'
 _MVX = '__mvx_'
+
+
+_MIRROR = {ast.Lt: ast.Gt, ast.Gt: ast.Lt, ast.LtE: ast.GtE, ast.GtE: ast.LtE}
+
+
+def canonical_compares(tree):
+    """one spelling for single comparisons with a constant operand: the constant on the right
+    (`1 == n` is `n == 1`, `None is x` is `x is None`, `0 < n` is `n > 0`).  The rules read
+    comparisons off the canonical tree; positions are those of the source."""
+    for node in ast.walk(tree):
+        if isinstance(node, ast.Compare) and len(node.ops) == 1:
+            l, r, op = node.left, node.comparators[0], node.ops[0]
+            if isinstance(l, ast.Constant) and not isinstance(r, ast.Constant):
+                if type(op) in _MIRROR:
+                    node.left, node.comparators, node.ops = r, [l], [_MIRROR[type(op)]()]
+                elif isinstance(op, (ast.Eq, ast.NotEq, ast.Is, ast.IsNot)):
+                    node.left, node.comparators = r, [l]
+    return tree
 
 
 def _parse_pattern(pattern):
